@@ -838,14 +838,15 @@ type c21Item struct {
 }
 
 func c21(c *Ctx) {
-	c.Rule = "conflict-free random CFGs (1-4 nonterminals, 2-5 terminals, empty rules) decorated with nested arrows whose node type names are drawn WITH reuse from a pool of 2-6 names (merged phrases), named fields f=X / f+=X, optional parts, lists (X+, X*, (X separator t)+), categories (%interface on nonterminals whose rules all carry an arrow), reported terminals (%inject on grammar terminals), an injected comment token and fileNode; compiled by the REAL compiler with eventFields+eventAST (grammars the compiler rejects are counted and skipped). Per grammar: (1) `validate`: Parser.Types + compiled rules/reports -> Lean checkTypes (hypothesis of C21_checkTypes_sound); (2) the generated ast packages are built in one batch and for every sentence up to 5 tokens plus random sentences the whole tree is walked and EVERY accessor of EVERY node is called (calls generated from Parser.Types, under recover): panic, invalid required node, node type outside the expanded selector, presence flag mismatch, child not returned by any accessor -> violation; (3) `access`: accessor results of the real code vs Lean accessorModel on the observed child sequence; (4) `seqs`: every observed child sequence must be in L(approx g T). non-trivial = grammar with a node type of >= 2 fields; distinct by grammar text"
+	c.Rule = "random CFGs in which every nonterminal is reachable from the start symbol (2-5 nonterminals, 2-5 terminals, empty rules, back references = recursion; LALR(1) conflict-free, all productive) decorated with nested arrows whose node type names are drawn WITH reuse from a pool of 3-8 names (merged phrases, multi-type selectors, fields of equal selector -> FetchAfter chains), named fields f=X / f+=X on single-field elements, optional parts, lists (X+, X*, (X separator t)+, (… -> T)+), categories (%interface on nonterminals whose rules all carry an arrow), reported terminals (%inject on grammar terminals), an injected comment token (placed between tokens of the inputs) and fileNode; compiled by the REAL compiler with eventFields+eventAST (grammars it rejects — overlapping fields, several fields behind an assignment, conflicts introduced by the decoration — are counted and skipped; up to 40 decorations per base grammar). Per grammar: (1) `validate`: Parser.Types + compiled rules/reports -> Lean checkTypes (hypothesis of C21_checkTypes_sound; textmapper.tm and, in the thorough tier, js.tm go through `fields` = checkFields because they contain a possibly-empty node); (2) END TO END, independent of the validator: the generated ast packages are built in one batch and for every sentence of the compiled grammar up to 6 tokens (cap 300) plus 40 random sentences the whole tree is walked and EVERY accessor of EVERY node is called (calls generated from Parser.Types, each under recover) and the factory To<Lang>Node on every node: panic, invalid required node, node outside the receiver's children, node type outside the expanded selector, presence flag mismatch, child (other than an injected token) returned by no accessor -> violation with grammar and input; (3) `access`: what the real accessors returned vs Lean `access` (mirror of the template chain) on the observed child sequence, judged by the property on disagreement; (4) `seqs`: every observed child sequence of a T node must be in L(approx g T) (ties `layout`/ChildSeq to the offset-based tree builder). non-trivial = grammar with a node type of >= 2 fields; distinct by grammar text. AVOIDED CLASSES = findings of this check (VERIF_FINDINGS=1 generates and flags them): [C21-empty-node] a reported range or typed rule that can derive the empty string (the AST builder nests by offsets: an empty node becomes a child of the following sibling or leaves its parent) — grammars whose COMPILED rules contain such a range are skipped; [C21-separator-token] a reported terminal used as a list separator (exprPhrase ignores List.Sub[1], the separator nodes are returned by no accessor) — separators are drawn from unreported terminals; [C21-required-list-empty] a list field declared `(X)+` (IsRequired) that can be empty (phrase cache shared by all members of a recursive SCC) — IsRequired of LIST fields is not used by the accessor template, so this is counted (`soft`), not treated as a violation."
 	if f := os.Getenv("TMH_C21_FILE"); f != "" {
 		c21Debug(c, f)
 		return
 	}
 	findings := os.Getenv("VERIF_FINDINGS") != ""
-	nG := c.N(40, 600)
-	batchSize := 40
+	nG := c.N(40, 320)
+	batchSize := c.N(40, 80)
+	c21Shipped(c)
 	for done := 0; done < nG; done += batchSize {
 		var items []*c21Item
 		for k := 0; k < batchSize && done+k < nG; k++ {
@@ -881,6 +882,44 @@ func c21(c *Ctx) {
 			}
 		}
 		c21RunBatch(c, items)
+	}
+}
+
+// c21Shipped: the validator on the real Parser.Types of the shipped grammars that use eventFields
+// (their generated packages live in /repo and are not rebuilt here).
+func c21Shipped(c *Ctx) {
+	repo := os.Getenv("VERIF_REPO")
+	if repo == "" {
+		repo = "/repo"
+	}
+	// parsers/test/test.tm is left out: its semantic actions call p.listener by hand (PlusExpr inside
+	// `customPlus -> __ignoreContent`, Int7/Int9), which the annotated-grammar model does not see.
+	files := []string{"parsers/tm/textmapper.tm"}
+	if c.Tier == "thorough" {
+		files = append(files, "parsers/js/js.tm")
+	}
+	for _, f := range files {
+		b, err := os.ReadFile(repo + "/" + f)
+		if err != nil {
+			c.Notes = append(c.Notes, err.Error())
+			continue
+		}
+		gp := compileTM("shipped", string(b), TMOpts{})
+		if gp.G == nil || gp.G.Parser == nil || gp.G.Parser.Types == nil {
+			c.Notes = append(c.Notes, f+": "+errSummary(gp.Err))
+			continue
+		}
+		t := newC21Types(gp)
+		c.Count("shipped grammars validated")
+		c.Debugf("validate shipped %s", f)
+		op := "validate"
+		if c21HasEmptyRange(gp) {
+			// both shipped grammars contain a possibly-empty node (tm: `rule0: predicate? rhsParts? reportClause? -> Rule`,
+			// test: `( -> Bar)`, `(empty1 -> Empty1)`): only the field part of the validator applies
+			c.Count("shipped grammar with a possibly-empty node range (" + f + "): field part only")
+			op = "fields"
+		}
+		c.Case(fmt.Sprintf("%s %s %s", op, t.grammarStr(), t.typesStr()), "ok", f)
 	}
 }
 
@@ -1004,6 +1043,9 @@ func c21RunBatch(c *Ctx, items []*c21Item) {
 		}
 	}
 	for _, it := range items {
+		if it.t.soft > 0 {
+			c.Count("grammars where a `(X)+` list accessor returned an empty list [C21-required-list-empty] (not a violation, see rule)")
+		}
 		key := ""
 		if it.t.nontrivial() {
 			key = it.gp.TM
@@ -1031,8 +1073,12 @@ func (it *c21Item) classTag(nodes []c21Node, n *c21Node, viol string) string {
 			return " [C21-empty-node]"
 		}
 	}
-	if strings.Contains(viol, "is not returned by any accessor") && strings.Contains(viol, "(Tok") && strings.Contains(it.gp.TM, "separator") {
-		return " [C21-separator-token]"
+	if i := strings.Index(viol, "(Tok"); i >= 0 && strings.Contains(viol, "is not returned by any accessor") && i+4 < len(viol) {
+		// the uncovered child is a reported terminal that the grammar uses as a list separator
+		term := strings.ToLower(viol[i+4 : i+5])
+		if strings.Contains(it.gp.TM, "separator '"+term+"')") && strings.Contains(it.gp.TM, "%inject '"+term+"'") {
+			return " [C21-separator-token]"
+		}
 	}
 	return ""
 }
